@@ -143,7 +143,11 @@ def run(ctx):
     # --- signed literals written without parentheses: the sign belongs to the magnitude (matters for offset units)
     raw = [("-40 degC to K", Fraction(23315, 100)), ("-40 degC to degF", None), ("-40 degF to degC", None), ("-5 km to m", Fraction(-5000)),
            ("+3 m to cm", Fraction(300)), ("-273 degC to K", Fraction(15, 100)), ("-(40 degC) to K", Fraction(-31315, 100)),
-           ("(-40 degC to K) K to degC", Fraction(-40)), ("- 2 h to min", Fraction(-120))]
+           ("(-40 degC to K) K to degC", Fraction(-40)), ("- 2 h to min", Fraction(-120)),
+           # magnitudes that are lazy factorials/coefficients or quotients of them (exact, fractional after resolving)
+           ("(5!/7!) km to m", Fraction(500, 21)), ("(5!/7) m to cm", Fraction(12000, 7)), ("(3!/4!) degC to K", Fraction(2734, 10)),
+           ("(C(5,2)/4) h to min", Fraction(150)), ("5! km to m", Fraction(120000)), ("(7!/5!) mm to m", Fraction(42, 1000)),
+           ("((5!/7!) km + 1 m) to m", Fraction(521, 21)), ("(1/3!) min to s", Fraction(10))]
     raw_obs = C.run_impl(Q.impl_case, [t for t, _ in raw], ctx["rundir"], limit=10.0)
     for (t, want), o in zip(raw, raw_obs):
         got = Q.impl_error_class(o)
